@@ -392,15 +392,36 @@ func errTok(err error) string {
 	return "err"
 }
 
+// guarded runs a lifecycle call with a watchdog: a call that does not return within 6 s is reported as "hang" (the
+// open clients are then closed, so that the call can finish and the process is not left with a blocked server).
+func (lr *lifeRun) guarded(call func() error) string {
+	done := make(chan error, 1)
+	go func() { done <- call() }()
+	select {
+	case err := <-done:
+		return errTok(err)
+	case <-time.After(6 * time.Second):
+		for id, cl := range lr.clients {
+			cl.conn.Close()
+			delete(lr.clients, id)
+		}
+		select {
+		case <-done:
+		case <-time.After(10 * time.Second):
+		}
+		return "hang"
+	}
+}
+
 func (lr *lifeRun) act(a string) string {
 	f := strings.Split(a, ":")
 	switch f[0] {
 	case "start":
 		return errTok(lr.srv.Start())
 	case "stop":
-		return errTok(lr.srv.Stop())
+		return lr.guarded(lr.srv.Stop)
 	case "restart":
-		return errTok(lr.srv.Restart())
+		return lr.guarded(lr.srv.Restart)
 	case "stopstorm": // Stop while clients keep connecting: connect, one PING, stay connected
 		halt := make(chan struct{})
 		var wg sync.WaitGroup
@@ -590,6 +611,40 @@ func (lr *lifeRun) act(a string) string {
 			time.Sleep(5 * time.Millisecond)
 		}
 		return "ok"
+	case "flood": // flood:<id>: requests with large replies, none of them read: the server's write to this client blocks
+		if cl := lr.clients[f[1]]; cl != nil {
+			req := requestBytes([][]byte{[]byte("ECHO"), bytes.Repeat([]byte{'x'}, 256<<10)}, nil)
+			go func(c net.Conn) {
+				c.SetWriteDeadline(time.Now().Add(1500 * time.Millisecond))
+				for i := 0; i < 96; i++ {
+					if _, err := c.Write(req); err != nil {
+						break
+					}
+				}
+				c.SetWriteDeadline(time.Time{})
+			}(cl.conn)
+			time.Sleep(1700 * time.Millisecond)
+		}
+		return "ok"
+	case "drain": // drain:<id>: read until the connection ends (down) or nothing more arrives (up)
+		if cl := lr.clients[f[1]]; cl != nil {
+			buf := make([]byte, 1<<16)
+			limit := time.Now().Add(8 * time.Second)
+			for time.Now().Before(limit) {
+				cl.conn.SetReadDeadline(time.Now().Add(400 * time.Millisecond))
+				_, err := cl.conn.Read(buf)
+				if err == nil {
+					continue
+				}
+				cl.conn.SetReadDeadline(time.Time{})
+				if ne, ok := err.(net.Error); ok && ne.Timeout() {
+					return "up"
+				}
+				return "down"
+			}
+			return "up"
+		}
+		return "down"
 	case "alive":
 		if cl := lr.clients[f[1]]; cl != nil {
 			return lr.clientAlive(cl)
